@@ -14,6 +14,7 @@ import (
 	"net/http/httptest"
 	"net/url"
 	"strings"
+	"sync"
 	"sync/atomic"
 	"time"
 
@@ -623,6 +624,67 @@ func init() {
 				e.close()
 			}
 		}
+		// ---- the store failing under CONCURRENT requests (an outage hits every request in flight at once — reads, refresh-lock
+		// look-ups, sign-out deletes): each request is answered, none is served as authenticated, the process survives (a runtime
+		// fatal error of the process is kept as the failing schedule)
+		if e, err := newEnv(c, proxyCfg{Redis: true, CookieRefresh: time.Hour, InjectRequest: defaultInject()}); err == nil {
+			b := newBrowser()
+			if lr := e.login(b, u, "/"); lr.OK {
+				ck := b.cookieHeader()
+				for round, how := range []string{"error-replies", "not-listening"} {
+					if how == "error-replies" {
+						e.redisOutage.Store(true)
+					} else {
+						e.mr.Close()
+					}
+					var wg sync.WaitGroup
+					var servedN, panics atomic.Int64
+					for w := 0; w < 24; w++ {
+						wg.Add(1)
+						go func(w int) {
+							defer wg.Done()
+							for k := 0; k < 12*c.scale; k++ {
+								target := []string{"/app/x", "/oauth2/auth", "/oauth2/sign_out", "/oauth2/userinfo", "/ready"}[(w+k)%5]
+								req, err := e.buildRequest(reqSpec{Target: target, Cookie: ck})
+								if err != nil {
+									continue
+								}
+								rec := httptest.NewRecorder()
+								func() {
+									defer func() {
+										if r := recover(); r != nil && r != http.ErrAbortHandler {
+											panics.Add(1)
+										}
+									}()
+									e.proxy.ServeHTTP(rec, req)
+								}()
+								if (target == "/app/x" && rec.Code == 200) || (target == "/oauth2/auth" && rec.Code == 202) || (target == "/ready" && rec.Code == 200) {
+									servedN.Add(1)
+								}
+							}
+						}(w)
+					}
+					wg.Wait()
+					if how == "error-replies" {
+						e.redisOutage.Store(false)
+					}
+					c.casen(fmt.Sprintf("c13|concurrent-outage|%d", round), fmt.Sprint(servedN.Load(), panics.Load()))
+					c.count("c13:concurrent-outage")
+					if servedN.Load() > 0 || panics.Load() > 0 {
+						c.violation("C13", fmt.Sprintf("24 concurrent requests while the session store was failing (%s): %d were answered as authenticated / ready, %d panicked", how, servedN.Load(), panics.Load()),
+							map[string]interface{}{"store": how, "answered_as_authenticated_or_ready": servedN.Load(), "panics": panics.Load()})
+					}
+				}
+				for _, uu := range e.ups {
+					uu.take()
+				}
+			} else {
+				c.violation("HARNESS", "login failed (concurrent outage)", nil)
+			}
+			e.close()
+		} else {
+			c.violation("HARNESS", "env: "+err.Error(), nil)
+		}
 		// ---- connection-level failures, in a process that read the session successfully a moment ago: Redis closes the connection
 		// without answering (a TCP proxy whose backend is gone, a fail-over in progress), Redis is not listening at all
 		// (Spring-style health paths: readiness BELOW liveness — each endpoint answers for exactly its own path)
@@ -698,7 +760,7 @@ func init() {
 		} else {
 			c.violation("HARNESS", "env: "+err.Error(), nil)
 		}
-		c.close([]string{"c13:connection-dropped", "c13:redis-not-listening", "c13:write-connection-dropped", "c13:faulted", "c13:no-fault", "serve:storefault:refresh", "serve:storedata:trunc5", "kind:notReady", "kind:errorPage", "redisfault:hit", "c13:sweep:bitflip", "c13:sweep:cut", "c13:outage", "c13:del-always"})
+		c.close([]string{"c13:concurrent-outage", "c13:connection-dropped", "c13:redis-not-listening", "c13:write-connection-dropped", "c13:faulted", "c13:no-fault", "serve:storefault:refresh", "serve:storedata:trunc5", "kind:notReady", "kind:errorPage", "redisfault:hit", "c13:sweep:bitflip", "c13:sweep:cut", "c13:outage", "c13:del-always"})
 	})
 
 	registerSuite("idpfaults", func(c *suiteCtx) {
